@@ -460,6 +460,25 @@ pub fn c01_c02_c18() -> Result<u64, String> {
             return Err(format!("metadata / settings differ after write->read ({desc})")); }
         if (back.min_longitude - f64::from(near(-122.41941558)) / 1e7).abs() > 1e-12 { return Err("coordinate does not come back as the nearest multiple of 1e-7".into()); }
         if tiles.len() <= 50 { let ab = block_on(PMTiles::from_async_reader(futures::io::Cursor::new(arch.to_vec()))).map_err(|e| format!("async open: {e}"))?; if ab.num_tiles() != tiles.len() { return Err("async open sees another tile count".into()); } }
+        // SECOND GENERATION: the opened archive (tiles backed by the reader) saved again, unedited and edited, is a valid archive too
+        if tiles.len() <= 6000 {
+            let (b2, _) = write_at(back, p).map_err(|e| format!("saving the re-opened archive fails ({desc}): {e}"))?;
+            let a2 = &b2[p as usize..];
+            let p2 = parse_archive(a2).map_err(|e| format!("independent reader rejects the archive saved a second time (open, save) ({desc}): {e}"))?;
+            for (k, v) in &tiles { if p2.bytes_of(a2, *k) != Some(&v[..]) { return Err(format!("second generation: spec lookup of tile {k} returns other bytes ({desc})")); } }
+            if p2.tiles.len() != tiles.len() { return Err(format!("second generation addresses {} tiles, expected {} ({desc})", p2.tiles.len(), tiles.len())); }
+            let mut ed = PMTiles::from_bytes(arch.to_vec()).map_err(|e| e.to_string())?; let mut want = tiles.clone();
+            let top = want.keys().next_back().map_or(0, |k| k + 1);
+            ed.add_tile(top + 3, vec![9, 9, 9, 1]).map_err(|e| e.to_string())?; want.insert(top + 3, vec![9, 9, 9, 1]);
+            if let Some((k0, _)) = tiles.iter().next() { ed.add_tile(*k0, vec![5, 4, 3]).map_err(|e| e.to_string())?; want.insert(*k0, vec![5, 4, 3]); }
+            if let Some((k1, _)) = tiles.iter().nth(1) { ed.remove_tile(*k1); want.remove(k1); }
+            if let Some((k2, v2)) = tiles.iter().nth(2) { ed.add_tile(top + 9, v2.clone()).map_err(|e| e.to_string())?; want.insert(top + 9, v2.clone()); }
+            let (b3, _) = write_at(ed, p).map_err(|e| format!("saving the edited re-opened archive fails ({desc}): {e}"))?;
+            let a3 = &b3[p as usize..];
+            let p3 = parse_archive(a3).map_err(|e| format!("independent reader rejects the archive saved after open + add/replace/remove ({desc}): {e}"))?;
+            for (k, v) in &want { if p3.bytes_of(a3, *k) != Some(&v[..]) { return Err(format!("edited second generation: spec lookup of tile {k} returns other bytes ({desc})")); } }
+            if p3.tiles.len() != want.len() { return Err(format!("edited second generation addresses {} tiles, expected {} ({desc})", p3.tiles.len(), want.len())); }
+        }
     }
     Ok(n)
 }
